@@ -24,6 +24,11 @@ def main():
         return 2
     subprocess.check_call(["git", "-C", "/repo", "apply", os.path.join(d, "patch.diff")])
     out = {}
+    # the evidence files of the unchanged tree must not be replaced by what a run on a seeded change writes
+    saved = {}
+    for p in props:
+        f = os.path.join(VERIF, "evidence", p + ".json")
+        saved[f] = open(f).read() if os.path.exists(f) else None
     try:
         for p in props:
             r = subprocess.run([os.path.join(VERIF, "bin", "check"), p, tier], cwd=VERIF, stdout=subprocess.PIPE, stderr=subprocess.STDOUT, universal_newlines=True)
@@ -35,6 +40,12 @@ def main():
     finally:
         subprocess.check_call(["git", "-C", "/repo", "checkout", "--", "."])
         subprocess.run(["git", "-C", "/repo", "clean", "-fdq"], check=False)
+        for f, txt in saved.items():
+            if txt is None:
+                if os.path.exists(f):
+                    os.remove(f)
+            else:
+                open(f, "w").write(txt)
     res = os.path.join(d, "detected_by.json")
     old = json.load(open(res)) if os.path.exists(res) else {}
     old.update(out)
